@@ -1,9 +1,533 @@
-//! C19: not built yet.
-use crate::out::Out;
-use serde_json::Value;
+//! C19: global memory queries (`RuntimeMemoryImage::read`, `read_string_until_null_terminator`,
+//! `is_global_memory_address`, `is_address_writeable`, `is_interval_readable/_writeable`,
+//! `get_ro_data_pointer_at_address`) against the loaded image.
+//!
+//! A case = one `reset` event with the image AS THE REAL CODE HOLDS IT (projection of the public
+//! fields `memory_segments`, `is_little_endian`) followed by `q` events, one per query call.  Images
+//! are built through every public route: struct literals / serde, `new_from_bare_metal`, and
+//! `RuntimeMemoryImage::new` on generated ELF files (ET_EXEC/ET_DYN program headers, ET_REL section
+//! headers - the kernel-module route that produces adjacent segments), optionally shifted with
+//! `add_global_memory_offset`.  Nothing is decided here: spec/trace/T_C19.tla judges every result.
+use crate::enc::*;
+use crate::out::{catch, Out};
+use crate::rng::Rng;
+use cwe_checker_lib::intermediate_representation::*;
+use cwe_checker_lib::utils::binary::{BareMetalConfig, MemorySegment};
+use serde_json::{json, Value};
+use std::panic::AssertUnwindSafe;
 
-pub fn gen(_out: &mut Out, _sub: &str) {}
+// ---------------------------------------------------------------------------------------------
+// projection
+// ---------------------------------------------------------------------------------------------
+fn addr8(a: u64) -> Value {
+    bv(&Bitvector::from_u64(a))
+}
 
-pub fn replay(_run: &[Value], _sub: &str) -> Vec<Value> {
-    Vec::new()
+fn reset_event(img: &RuntimeMemoryImage, via: &str) -> Value {
+    let segs: Vec<Value> = img
+        .memory_segments
+        .iter()
+        .map(|s| {
+            json!({"base": addr8(s.base_address), "bytes": s.bytes, "r": s.read_flag, "w": s.write_flag, "x": s.execute_flag})
+        })
+        .collect();
+    json!({"ev": "reset", "via": via, "le": img.is_little_endian, "segs": segs})
+}
+
+fn image_from_reset(ev: &Value) -> RuntimeMemoryImage {
+    let segs = ev["segs"]
+        .as_array()
+        .unwrap()
+        .iter()
+        .map(|s| MemorySegment {
+            bytes: s["bytes"].as_array().unwrap().iter().map(|b| b.as_u64().unwrap() as u8).collect(),
+            base_address: bv_from_json(&s["base"]).try_to_u64().unwrap(),
+            read_flag: s["r"].as_bool().unwrap(),
+            write_flag: s["w"].as_bool().unwrap(),
+            execute_flag: s["x"].as_bool().unwrap(),
+        })
+        .collect();
+    RuntimeMemoryImage { memory_segments: segs, is_little_endian: ev["le"].as_bool().unwrap(), is_lkm: false }
+}
+
+// ---------------------------------------------------------------------------------------------
+// one query call on the real code
+// ---------------------------------------------------------------------------------------------
+/// `input`: {"q", "addr": bv, "size": n, "end": bv8}.  Returns the full event.
+fn exec_query(img: &RuntimeMemoryImage, input: &Value) -> Value {
+    let q = input["q"].as_str().unwrap().to_string();
+    let addr = bv_from_json(&input["addr"]);
+    let size = input["size"].as_u64().unwrap();
+    let end = bv_from_json(&input["end"]).try_to_u64().unwrap();
+    let a64 = addr.try_to_u64().unwrap();
+    // feature tag (counted / matched by known findings, never used to decide)
+    let at_seg_end = img.memory_segments.iter().any(|s| s.base_address.wrapping_add(s.bytes.len() as u64) == a64);
+    let at_seg_base = img.memory_segments.iter().any(|s| s.base_address == a64);
+    let mut k = "error".to_string();
+    let mut v: Vec<u8> = Vec::new();
+    let mut b = false;
+    let mut i: i64 = -1;
+    let mut panic = String::new();
+    let img = AssertUnwindSafe(img);
+    match q.as_str() {
+        "read" => match catch(|| img.read(&addr, ByteSize::new(size)).map_err(|_| ())) {
+            Ok(Ok(Some(val))) => {
+                k = "value".into();
+                v = bv(&val).as_array().unwrap().iter().map(|x| x.as_u64().unwrap() as u8).collect();
+            }
+            Ok(Ok(None)) => k = "unknown".into(),
+            Ok(Err(())) => {}
+            Err(p) => { k = "panic".into(); panic = p }
+        },
+        "global" => match catch(|| img.is_global_memory_address(&addr)) {
+            Ok(r) => { k = "ok".into(); b = r }
+            Err(p) => { k = "panic".into(); panic = p }
+        },
+        "string" => match catch(|| img.read_string_until_null_terminator(&addr).map(|s| s.as_bytes().to_vec()).map_err(|_| ())) {
+            Ok(Ok(s)) => { k = "ok".into(); v = s }
+            Ok(Err(())) => {}
+            Err(p) => { k = "panic".into(); panic = p }
+        },
+        "writable" => match catch(|| img.is_address_writeable(&addr).map_err(|_| ())) {
+            Ok(Ok(r)) => { k = "ok".into(); b = r }
+            Ok(Err(())) => {}
+            Err(p) => { k = "panic".into(); panic = p }
+        },
+        "ireadable" | "iwritable" => {
+            let r = if q == "ireadable" {
+                catch(|| img.is_interval_readable(a64, end).map_err(|_| ()))
+            } else {
+                catch(|| img.is_interval_writeable(a64, end).map_err(|_| ()))
+            };
+            match r {
+                Ok(Ok(r)) => { k = "ok".into(); b = r }
+                Ok(Err(())) => {}
+                Err(p) => { k = "panic".into(); panic = p }
+            }
+        }
+        "ropointer" => match catch(|| img.get_ro_data_pointer_at_address(&addr).map(|(s, idx)| (s.to_vec(), idx)).map_err(|_| ())) {
+            Ok(Ok((s, idx))) => { k = "ok".into(); v = s; i = idx as i64 }
+            Ok(Err(())) => {}
+            Err(p) => { k = "panic".into(); panic = p }
+        },
+        other => panic!("unknown query kind {}", other),
+    }
+    json!({"ev": "q", "q": q, "addr": input["addr"], "size": size, "end": input["end"],
+           "k": k, "v": v, "b": b, "i": i, "panic": panic, "at_seg_end": at_seg_end, "at_seg_base": at_seg_base})
+}
+
+// ---------------------------------------------------------------------------------------------
+// layouts
+// ---------------------------------------------------------------------------------------------
+#[derive(Clone)]
+struct SegPlan {
+    base: u64,
+    bytes: Vec<u8>,
+    r: bool,
+    w: bool,
+    x: bool,
+}
+
+fn content(rng: &mut Rng, len: usize) -> Vec<u8> {
+    let style = rng.below(6);
+    let mut v = Vec::with_capacity(len);
+    while v.len() < len {
+        match style {
+            // text with frequent NULs
+            0 | 1 => v.push(if rng.chance(1, 5) { 0 } else { *rng.pick(b"abcxyz%d s5.l-0AZ~!") }),
+            // arbitrary bytes, NULs rare
+            2 => v.push(if rng.chance(1, 8) { 0 } else { rng.below(256) as u8 }),
+            // UTF-8 text: multi-byte sequences may be cut by the segment end
+            3 => {
+                let c = *rng.pick(&['a', 'ä', 'ß', '€', '漢', '😀', '\u{7ff}', '\u{800}', '\u{ffff}', '\u{10000}', '\u{10ffff}', '\u{d7ff}', '\u{e000}', '\0']);
+                let mut buf = [0u8; 4];
+                for b in c.encode_utf8(&mut buf).as_bytes() {
+                    if v.len() < len { v.push(*b) }
+                }
+            }
+            // no NUL at all
+            4 => { let m = if rng.chance(1, 2) { 126 } else { 255 }; v.push(1 + rng.below(m) as u8) }
+            // ill-formed UTF-8 candidates next to well-formed ones
+            _ => v.push(*rng.pick(&[0u8, 0x41, 0x7f, 0x80, 0xbf, 0xc0, 0xc1, 0xc2, 0xdf, 0xe0, 0xa0, 0x9f, 0xed, 0xef, 0xf0, 0x90, 0x8f, 0xf4, 0xf5, 0xff])),
+        }
+    }
+    v
+}
+
+fn seg_len(rng: &mut Rng) -> usize {
+    match rng.below(20) {
+        0 => 0,
+        1..=4 => 1 + rng.below(3) as usize,
+        5..=15 => 3 + rng.below(10) as usize,
+        16..=18 => 12 + rng.below(12) as usize,
+        _ => 24 + rng.below(20) as usize,
+    }
+}
+
+/// Disjoint segments in ascending address order starting near `start`; gap 0 = adjacent.
+fn plan_segments(rng: &mut Rng, n: usize, start: u64, allow_empty: bool) -> Vec<SegPlan> {
+    let mut segs = Vec::new();
+    let mut next = start;
+    for _ in 0..n {
+        let gap = match rng.below(10) {
+            0..=4 => 0,
+            5 => 1,
+            6 => 2,
+            7 => 3,
+            8 => 4 + rng.below(12),
+            _ => 16 + rng.below(4000),
+        };
+        let mut len = seg_len(rng);
+        if len == 0 && !allow_empty {
+            len = 1;
+        }
+        let base = next + gap;
+        segs.push(SegPlan { base, bytes: content(rng, len), r: rng.chance(4, 5), w: rng.chance(1, 3), x: rng.chance(1, 3) });
+        next = base + len as u64;
+    }
+    segs
+}
+
+fn start_address(rng: &mut Rng, max32: bool) -> u64 {
+    let regions32: [u64; 8] = [0, 1, 2, 0x40, 0xf8, 0x1000, 0xfff0, 0x7fff_fff0];
+    let regions64: [u64; 6] = [
+        0xffff_ffe0,                // segments straddling 2^32
+        0x1_0000_0000,
+        0x7fff_ffff_ffff_ffe0,      // straddling the sign boundary
+        0xffff_ffff_8000_0000,      // kernel space
+        0xffff_ffff_ffff_0000,
+        0x0000_7f12_3456_7000,
+    ];
+    if max32 || rng.chance(3, 5) {
+        *rng.pick(&regions32) + if rng.chance(1, 3) { rng.below(9) } else { 0 }
+    } else {
+        *rng.pick(&regions64) + if rng.chance(1, 3) { rng.below(9) } else { 0 }
+    }
+}
+
+fn image_from_plan(rng: &mut Rng, plan: &[SegPlan], le: bool) -> RuntimeMemoryImage {
+    let mut segs: Vec<MemorySegment> = plan
+        .iter()
+        .map(|p| MemorySegment { bytes: p.bytes.clone(), base_address: p.base, read_flag: p.r, write_flag: p.w, execute_flag: p.x })
+        .collect();
+    rng.shuffle(&mut segs);   // the order of the list must not matter
+    RuntimeMemoryImage { memory_segments: segs, is_little_endian: le, is_lkm: false }
+}
+
+// ---------------------------------------------------------------------------------------------
+// minimal ELF writer (only what RuntimeMemoryImage::new reads)
+// ---------------------------------------------------------------------------------------------
+struct W {
+    b: Vec<u8>,
+    le: bool,
+    c64: bool,
+}
+impl W {
+    fn u16(&mut self, x: u16) { if self.le { self.b.extend(x.to_le_bytes()) } else { self.b.extend(x.to_be_bytes()) } }
+    fn u32(&mut self, x: u32) { if self.le { self.b.extend(x.to_le_bytes()) } else { self.b.extend(x.to_be_bytes()) } }
+    fn u64(&mut self, x: u64) { if self.le { self.b.extend(x.to_le_bytes()) } else { self.b.extend(x.to_be_bytes()) } }
+    /// address/offset-sized word
+    fn word(&mut self, x: u64) { if self.c64 { self.u64(x) } else { self.u32(x as u32) } }
+    fn header(&mut self, e_type: u16, phoff: u64, phnum: u16, shoff: u64, shnum: u16, shstrndx: u16) {
+        self.b.extend([0x7f, b'E', b'L', b'F', if self.c64 { 2 } else { 1 }, if self.le { 1 } else { 2 }, 1, 0]);
+        self.b.extend([0u8; 8]);
+        self.u16(e_type);
+        self.u16(if self.c64 { 62 } else { 40 });
+        self.u32(1);
+        self.word(0);
+        self.word(phoff);
+        self.word(shoff);
+        self.u32(0);
+        self.u16(if self.c64 { 64 } else { 52 });
+        self.u16(if self.c64 { 56 } else { 32 });
+        self.u16(phnum);
+        self.u16(if self.c64 { 64 } else { 40 });
+        self.u16(shnum);
+        self.u16(shstrndx);
+    }
+    fn phdr(&mut self, p_type: u32, flags: u32, off: u64, vaddr: u64, filesz: u64, memsz: u64) {
+        if self.c64 {
+            self.u32(p_type); self.u32(flags); self.u64(off); self.u64(vaddr); self.u64(vaddr); self.u64(filesz); self.u64(memsz); self.u64(1);
+        } else {
+            self.u32(p_type); self.u32(off as u32); self.u32(vaddr as u32); self.u32(vaddr as u32); self.u32(filesz as u32); self.u32(memsz as u32); self.u32(flags); self.u32(1);
+        }
+    }
+    #[allow(clippy::too_many_arguments)]
+    fn shdr(&mut self, name: u32, sh_type: u32, flags: u64, addr: u64, off: u64, size: u64, align: u64) {
+        self.u32(name); self.u32(sh_type); self.word(flags); self.word(addr); self.word(off); self.word(size);
+        self.u32(0); self.u32(0); self.word(align); self.word(0);
+    }
+}
+
+/// ET_EXEC / ET_DYN with one PT_LOAD per planned segment (plus a PT_NOTE that must be ignored).
+/// A trailing run of zero bytes of a segment may be expressed as p_memsz > p_filesz.
+fn elf_exec(rng: &mut Rng, plan: &[SegPlan], le: bool, c64: bool) -> Vec<u8> {
+    let ehsize = if c64 { 64 } else { 52 };
+    let phent = if c64 { 56 } else { 32 };
+    let mut order: Vec<usize> = (0..plan.len()).collect();
+    rng.shuffle(&mut order);
+    let phnum = plan.len() + 1;
+    let mut w = W { b: Vec::new(), le, c64 };
+    w.header(if rng.chance(1, 2) { 2 } else { 3 }, ehsize, phnum as u16, 0, 0, 0);
+    let mut off = ehsize + phent * phnum as u64;
+    let mut data: Vec<u8> = Vec::new();
+    w.phdr(4, 4, 0, 0, 0, 0); // PT_NOTE, empty
+    for &i in &order {
+        let p = &plan[i];
+        let mut filesz = p.bytes.len();
+        if rng.chance(1, 2) {
+            while filesz > 0 && p.bytes[filesz - 1] == 0 { filesz -= 1 }
+        }
+        let flags = (p.x as u32) | ((p.w as u32) << 1) | ((p.r as u32) << 2);
+        w.phdr(1, flags, off, p.base, filesz as u64, p.bytes.len() as u64);
+        data.extend(&p.bytes[..filesz]);
+        off += filesz as u64;
+    }
+    w.b.extend(data);
+    w.b
+}
+
+/// ET_REL: one SHF_ALLOC section per planned segment, laid out by the loader itself
+/// (`from_elf_sections`: concatenation respecting sh_addralign).  Only lengths, contents and flags of
+/// the plan are used.  Non-loaded sections (no SHF_ALLOC, size 0) are interleaved.
+fn elf_rel(rng: &mut Rng, plan: &[SegPlan], le: bool, c64: bool, lkm: bool) -> Vec<u8> {
+    let ehsize: u64 = if c64 { 64 } else { 52 };
+    struct S { name: String, ty: u32, flags: u64, data: Vec<u8>, size: u64, align: u64 }
+    let mut secs: Vec<S> = vec![S { name: String::new(), ty: 0, flags: 0, data: vec![], size: 0, align: 0 }];
+    for (i, p) in plan.iter().enumerate() {
+        if rng.chance(1, 4) {
+            // not loaded: no SHF_ALLOC
+            secs.push(S { name: format!(".dbg{}", i), ty: 1, flags: 0, data: content(rng, 5), size: 5, align: 1 });
+        }
+        if rng.chance(1, 6) {
+            // not loaded: empty
+            secs.push(S { name: format!(".e{}", i), ty: 1, flags: 2, data: vec![], size: 0, align: 1 });
+        }
+        let nobits = p.bytes.iter().all(|b| *b == 0) && rng.chance(1, 2);
+        let flags = 2 | (p.w as u64) | ((p.x as u64) << 2);
+        let align = *rng.pick(&[0u64, 1, 1, 1, 1, 2, 4, 3]);
+        let name = if lkm && i == 0 { ".modinfo".to_string() } else if lkm && i == 1 { ".gnu.linkonce.this_module".to_string() } else { format!(".s{}", i) };
+        secs.push(S { name, ty: if nobits { 8 } else { 1 }, flags, data: if nobits { vec![] } else { p.bytes.clone() }, size: p.bytes.len() as u64, align });
+    }
+    let mut strtab = vec![0u8];
+    let mut names = Vec::new();
+    for s in &secs {
+        names.push(strtab.len() as u32);
+        strtab.extend(s.name.as_bytes());
+        strtab.push(0);
+    }
+    let shstr_name = strtab.len() as u32;
+    strtab.extend(b".shstrtab\0");
+    let mut w = W { b: Vec::new(), le, c64 };
+    let data_len: u64 = secs.iter().map(|s| s.data.len() as u64).sum::<u64>() + strtab.len() as u64;
+    let shoff = ehsize + data_len;
+    w.header(1, 0, 0, shoff, secs.len() as u16 + 1, secs.len() as u16);
+    let mut offs = Vec::new();
+    for s in &secs {
+        offs.push(w.b.len() as u64);
+        w.b.extend(&s.data);
+    }
+    let stroff = w.b.len() as u64;
+    w.b.extend(&strtab);
+    assert_eq!(w.b.len() as u64, shoff);
+    for (i, s) in secs.iter().enumerate() {
+        if i == 0 {
+            w.shdr(0, 0, 0, 0, 0, 0, 0);
+        } else {
+            w.shdr(names[i], s.ty, s.flags, 0, offs[i], s.size, s.align);
+        }
+    }
+    w.shdr(shstr_name, 3, 0, 0, stroff, strtab.len() as u64, 1);
+    w.b
+}
+
+/// Build one image through a randomly chosen public route.  Returns (route name, image) or None
+/// if the route refused the input (counted, not an event).
+fn build_image(rng: &mut Rng) -> Option<(String, RuntimeMemoryImage)> {
+    let le = rng.chance(1, 2);
+    let n = match rng.below(12) { 0 => 1, 1..=4 => 2, 5..=9 => 3, _ => 4 };
+    match rng.below(10) {
+        // struct literals, sometimes through a serde round trip
+        0..=3 => {
+            if rng.chance(1, 40) {
+                return Some(("empty".into(), RuntimeMemoryImage::empty(le)));
+            }
+            let start = start_address(rng, false);
+            let plan = plan_segments(rng, n, start, true);
+            let mut img = image_from_plan(rng, &plan, le);
+            let mut via = "struct";
+            if rng.chance(1, 3) {
+                img = serde_json::from_value(serde_json::to_value(&img).unwrap()).unwrap();
+                via = "serde";
+            }
+            Some((via.into(), img))
+        }
+        // bare metal: flash (content = binary) + RAM (zeroes), often adjacent
+        4 | 5 => {
+            let start = start_address(rng, true);
+            let mut plan = plan_segments(rng, 2, start, true);
+            // plan[0] = flash, plan[1] = ram (either order in the address space)
+            if rng.chance(1, 2) { plan.swap(0, 1) }
+            let hex = |x: u64, rng: &mut Rng| if rng.chance(1, 2) { format!("0x{:x}", x) } else { format!("{:X}", x) };
+            let cfg = BareMetalConfig {
+                processor_id: format!("ARM:{}:32:Cortex", if le { "LE" } else { "BE" }),
+                flash_base_address: hex(plan[0].base, rng),
+                ram_base_address: hex(plan[1].base, rng),
+                ram_size: hex(plan[1].bytes.len() as u64, rng),
+            };
+            let bin = plan[0].bytes.clone();
+            match catch(move || RuntimeMemoryImage::new_from_bare_metal(&bin, &cfg).ok()) {
+                Ok(Some(img)) => Some(("bare_metal".into(), img)),
+                _ => None,
+            }
+        }
+        // executable / shared object: PT_LOAD segments
+        6 | 7 => {
+            let c64 = rng.chance(1, 2);
+            let start = start_address(rng, !c64);
+            let plan = plan_segments(rng, n, start, false);
+            let bin = elf_exec(rng, &plan, le, c64);
+            match catch(move || RuntimeMemoryImage::new(&bin).ok()) {
+                Ok(Some(img)) => Some((format!("elf_exec{}", if c64 { 64 } else { 32 }), img)),
+                _ => None,
+            }
+        }
+        // relocatable object / kernel module: sections concatenated by the loader, then shifted
+        _ => {
+            let c64 = rng.chance(1, 2);
+            let plan = plan_segments(rng, n, 0, false);
+            let lkm = rng.chance(1, 2);
+            let bin = elf_rel(rng, &plan, le, c64, lkm);
+            match catch(move || RuntimeMemoryImage::new(&bin).ok()) {
+                Ok(Some(mut img)) => {
+                    if rng.chance(2, 3) {
+                        let off = start_address(rng, !c64);
+                        img.add_global_memory_offset(off);
+                    }
+                    Some((format!("elf_rel{}{}", if c64 { 64 } else { 32 }, if img.is_lkm { "_lkm" } else { "" }), img))
+                }
+                _ => None,
+            }
+        }
+    }
+}
+
+// ---------------------------------------------------------------------------------------------
+// queries
+// ---------------------------------------------------------------------------------------------
+fn addr_value(rng: &mut Rng, a: u64) -> Value {
+    // an address below 2^32 is sometimes given as a 4-byte constant (32-bit targets)
+    if a <= u32::MAX as u64 && rng.chance(1, 2) {
+        bv(&Bitvector::from_u32(a as u32))
+    } else {
+        addr8(a)
+    }
+}
+
+fn queries(rng: &mut Rng, img: &RuntimeMemoryImage) -> Vec<Value> {
+    let mut addrs: Vec<u64> = Vec::new();
+    let mut ends: Vec<u64> = Vec::new();
+    for s in &img.memory_segments {
+        let len = s.bytes.len() as u64;
+        ends.push(s.base_address.wrapping_add(len));
+        // all addresses base-2 .. base+len+2 (wrapping below 0 is a legal, unmapped address)
+        for d in 0..(len + 5) {
+            addrs.push(s.base_address.wrapping_add(d).wrapping_sub(2));
+        }
+        // where a 16-byte read starts to fit / stops fitting
+        for d in [16u64, 17, 15, 9, 8, 7] {
+            addrs.push(s.base_address.wrapping_add(len).wrapping_sub(d));
+        }
+    }
+    for _ in 0..3 {
+        addrs.push(rng.next());
+        addrs.push(rng.below(1 << 33));
+    }
+    addrs.push(0);
+    addrs.push(u64::MAX);
+    addrs.sort();
+    addrs.dedup();
+    ends.sort();
+    let mut evs = Vec::new();
+    let inp = |q: &str, a: Value, size: u64, end: u64| json!({"q": q, "addr": a, "size": size, "end": addr8(end)});
+    for &a in &addrs {
+        for size in [1u64, 2, 4, 8] {
+            evs.push(inp("read", addr_value(rng, a), size, 0));
+        }
+        if rng.chance(1, 3) {
+            let size = *rng.pick(&[3u64, 5, 6, 7, 16]);
+            evs.push(inp("read", addr_value(rng, a), size, 0));
+        }
+        // is_global_memory_address: the constant's width is the read size
+        for size in [1u64, 2, 4, 8] {
+            if size == 8 || a < (1u64 << (8 * size)) {
+                evs.push(inp("global", bv(&bv_u64(a, size)), size, 0));
+            }
+        }
+        evs.push(inp("string", addr_value(rng, a), 0, 0));
+        evs.push(inp("writable", addr_value(rng, a), 0, 0));
+        evs.push(inp("ropointer", addr_value(rng, a), 0, 0));
+        // intervals [a, end) with a <= end: around a, around every segment end
+        let mut es: Vec<u64> = vec![a, a.saturating_add(1), a.saturating_add(rng.below(64))];
+        // the two nearest segment ends at or behind a (the own segment's end and the next one)
+        for &e in ends.iter().filter(|e| **e >= a).take(2) {
+            for d in [-1i64, 0, 1] {
+                es.push(e.wrapping_add(d as u64));
+            }
+        }
+        es.sort();
+        es.dedup();
+        for e in es {
+            if e >= a {
+                evs.push(inp(if rng.chance(1, 2) { "ireadable" } else { "iwritable" }, addr8(a), 0, e));
+            }
+        }
+    }
+    evs
+}
+
+fn has_adjacent(img: &RuntimeMemoryImage) -> bool {
+    img.memory_segments.iter().any(|s| {
+        !s.bytes.is_empty()
+            && img.memory_segments.iter().any(|t| !t.bytes.is_empty() && t.base_address == s.base_address.wrapping_add(s.bytes.len() as u64))
+    })
+}
+
+pub fn gen(out: &mut Out, _sub: &str) {
+    let mut rng = Rng::new(out.seed ^ 0xC19);
+    let layouts = out.size(120, 3000);
+    let mut refused = 0u64;
+    let mut routes: std::collections::BTreeMap<String, u64> = Default::default();
+    let mut adjacent = 0u64;
+    let mut done = 0;
+    while done < layouts {
+        let mut r = rng.fork();
+        let Some((via, img)) = build_image(&mut r) else { refused += 1; continue };
+        *routes.entry(via.clone()).or_default() += 1;
+        let adj = has_adjacent(&img);
+        adjacent += adj as u64;
+        let mut evs = vec![reset_event(&img, &via)];
+        for q in queries(&mut r, &img) {
+            evs.push(exec_query(&img, &q));
+        }
+        out.emit(evs, adj);
+        done += 1;
+    }
+    out.extra.insert("routes".into(), json!(routes));
+    out.extra.insert("layouts_with_adjacent_segments".into(), json!(adjacent));
+    out.extra.insert("constructor_refusals".into(), json!(refused));
+}
+
+pub fn replay(run: &[Value], _sub: &str) -> Vec<Value> {
+    let mut out = Vec::new();
+    let mut img = RuntimeMemoryImage::empty(true);
+    for ev in run {
+        if ev["ev"] == "reset" {
+            img = image_from_reset(ev);
+            out.push(reset_event(&img, ev["via"].as_str().unwrap_or("replay")));
+        } else {
+            out.push(exec_query(&img, ev));
+        }
+    }
+    out
 }
